@@ -471,6 +471,7 @@ func c09(c *Ctx) {
 		o.ExpectEmpty("E2E.v", "R_e2e_violation", "violation", "after the real pass.Compile the live sets do not satisfy LiveOut(i) = union of LiveIn over the successors the property demands: the graph the pipeline used was not the graph of the function (stale label targets, edges to deleted instructions)")
 		o.Plan.Stats["compiled_end_to_end"] = ne
 	}
+	multiFunctionFiles(o, progs, "cfg", 60)
 	o.Stage(files...)
 	o.Plan.Rule = "directed skeletons (duplicate/consecutive/trailing labels, self-loops, jumps into/out of loops, branch last, unreachable blocks, non-label branches) + random node sequences over {label, comment, real and synthetic instructions, conditional/unconditional branches, RET}, 25% from a malformed stream; non-trivial = at least one branch and more than two nodes; distinct by node text"
 	o.Plan.Stats["programs"] = len(progs)
